@@ -141,6 +141,49 @@ fn main() {
             },
             g.describe(),
         )];
+        // the same amd64 dumps with a register file crowded around the first mapped region: every
+        // general-purpose register lies within a page of a candidate address (confidence heuristics)
+        let g3 = g.clone();
+        let g4 = g.clone();
+        let crowd = |m: &mut vh::procgen::Model| -> bool {
+            if m.cpu != vh::procgen::CpuK::Amd64 || m.exc.as_ref().map(|x| x.ctx != 1).unwrap_or(true) {
+                return false;
+            }
+            let first = match &m.maps {
+                vh::procgen::MapsM::Info(r) => r.first().map(|x| x.0),
+                vh::procgen::MapsM::Linux(r) => r.first().map(|x| x.0),
+                vh::procgen::MapsM::None => None,
+            };
+            match first {
+                Some(b) => {
+                    m.gpr_fill = Some(b.wrapping_add(0x18));
+                    true
+                }
+                None => false,
+            }
+        };
+        def.spaces.push(Space::new(
+            "bitflip-crowded-registers",
+            g.len,
+            move |idx, l| {
+                let mut m = (g3.model)(idx);
+                if !crowd(&mut m) {
+                    return;
+                }
+                l.eval();
+                match process_model(&m) {
+                    Proc::Ok(st) => check_flips(&m, &st, l),
+                    Proc::ProcessErr(e) => l.violation("c19:process:error", format!("processing a well-formed generated dump failed: {e}"), json!({"model": m.summary()})),
+                    Proc::ReadErr(e) => panic!("c19 generator produced an unreadable dump: {e} ({m:?})"),
+                    Proc::Panic(p) => l.panic_violation(&p, json!({"model": m.summary()})),
+                }
+            },
+            move |idx| {
+                let mut m = (g4.model)(idx);
+                let on = crowd(&mut m);
+                json!({"model": m.summary(), "all_gprs": m.gpr_fill.map(|v| format!("{v:#x}")), "skipped": !on})
+            },
+        ));
         def
     })
 }
